@@ -90,6 +90,23 @@ theorem xyz_kinematics_body (t0 t1 t2 : Trig K) (h1 : TrigValid t1) (h2 : TrigVa
   jet_simp
   ext <;> simp only [] <;> field_simp <;> ring_nf <;> (try simp only [e1, e2]) <;> ring
 
+/-- **the property's direction** ("the coordinate derivatives are the true time derivatives of the coordinates of a rotation
+moving with the given angular velocity"): for *arbitrary* coordinate rates `q̇`, at every orientation (no singularity:
+`NInv` is polynomial), the rotation moves with angular velocity `ω = NInv_P(q) q̇` (parent) / `ω_B = NInv_B(q) q̇` (body).
+Together with `N·NInv = 1` this says `q̇ = N ω` is the *only* rate vector producing `ω`. -/
+theorem xyz_kinematics_of_rates (t0 t1 t2 : Trig K) (h0 : TrigValid t0) (h1 : TrigValid t1) (h2 : TrigValid t2) (qd : Vec3 K) :
+    let R := bodyFixedXYZ (t0.lift qd.x) (t1.lift qd.y) (t2.lift qd.z)
+    R.map Jet.eps = (Mat33.crossMat (multiplyByBodyXYZ_NInv_P t0 t1 qd)).mul (R.map Jet.re) ∧
+    R.map Jet.eps = (R.map Jet.re).mul (Mat33.crossMat (convertBodyXYZDotToAngVelInBodyFrame t1 t2 qd)) := by
+  unfold TrigValid at *
+  have e0 : t0.c ^ 2 = 1 - t0.s ^ 2 := by linear_combination h0
+  have e1 : t1.c ^ 2 = 1 - t1.s ^ 2 := by linear_combination h1
+  have e2 : t2.c ^ 2 = 1 - t2.s ^ 2 := by linear_combination h2
+  constructor <;>
+    simp only [multiplyByBodyXYZ_NInv_P, convertBodyXYZDotToAngVelInBodyFrame, calcNInvForBodyXYZInBodyFrame,
+      Mat33.mulVec, bodyFixedXYZ, Mat33.map, Mat33.crossMat, Mat33.mul] <;>
+    jet_simp <;> ext <;> simp only [] <;> ring_nf <;> (try simp only [e0, e1, e2]) <;> ring
+
 /-! ## Body-fixed XYZ: NDot and the second-derivative helpers -/
 
 /-- **`NDot_B` is the time derivative of `N_B`** along any coordinate rates `q̇` -/
